@@ -11,14 +11,15 @@ namespace Fadl
 def isShortcutName (n : String) : Bool := (shortcutLam n).isSome
 
 mutual
-/-- No call `n(x)` with `n ∈ {len, Count, Sum, Max, Min}` and exactly one positional argument. -/
+/-- No call `n(x)` with `n ∈ {len, Count, Sum, Max, Min}` and exactly one argument: one positional argument that is not
+    starred, no keyword. -/
 def noShortcut : Expr → Bool
   | .name _ => true
   | .const _ => true
   | .attr v _ => noShortcut v
-  | .call f args _ kwv =>
+  | .call f args kwn kwv =>
     (match f, args with
-     | .name n, [_] => !isShortcutName n
+     | .name n, [a] => !(kwn.isEmpty && !isStarredArg a && isShortcutName n)
      | _, _ => true) && noShortcut f && noShortcutL args && noShortcutL kwv
   | .lam _ b => noShortcut b
   | .sub v s => noShortcut v && noShortcut s
@@ -80,11 +81,22 @@ theorem aggT_no_shortcuts_both :
       · rename_i l hl
         have : noShortcut a' = true := by
           have := iha; rw [heq] at this; simpa [noShortcutL] using this
-        simp [aggCall, fcall, noShortcut, noShortcutL, this, shortcutLam_noShortcut hl, isShortcutName]
+        have hl' : shortcutLam n = some l := by
+          split at hl
+          · exact hl
+          · cases hl
+        simp [aggCall, fcall, noShortcut, noShortcutL, this, shortcutLam_noShortcut hl', isShortcutName, isStarredArg]
       · rename_i hl
         have : noShortcut a' = true := by
           have := iha; rw [heq] at this; simpa [noShortcutL] using this
-        simp [noShortcut, noShortcutL, this, ihk, isShortcutName, hl]
+        by_cases hg : (kwn.isEmpty && !isStarredArg a') = true
+        · simp only [hg, if_true] at hl
+          simp [noShortcut, noShortcutL, this, ihk, isShortcutName, hl]
+        · simp only [Bool.and_eq_true, Bool.not_eq_true', not_and, Bool.not_eq_false] at hg
+          simp only [noShortcut, noShortcutL, this, ihk, Bool.and_true]
+          by_cases hk : kwn.isEmpty = true
+          · simp [hk, hg hk]
+          · simp [hk]
     · rename_i hne
       simp only [noShortcut, ihf, iha, ihk, Bool.and_true]
       split
@@ -111,9 +123,14 @@ theorem aggT_frame_both :
     simp only [aggT, iha h2, ihk h3, ihf h1]
     split
     · rename_i _ _ n x
-      simp only [Bool.not_eq_true', isShortcutName] at h0
       split
-      · rename_i l hl; simp [hl] at h0
+      · rename_i l hl
+        exfalso
+        split at hl
+        · rename_i hg
+          simp only [Bool.and_eq_true, Bool.not_eq_true'] at hg
+          simp [isShortcutName, hl, hg.1, hg.2] at h0
+        · cases hl
       · rfl
     · rfl
   all_goals intros
@@ -311,7 +328,11 @@ theorem aggT_le_both (w : World) :
             have ha : Den.le (den w a) (den w (aggT a)) := by
               cases iha1 with | cons h _ => exact h
             split
-            · rename_i l hl
+            · rename_i l hl0
+              have hl : shortcutLam n = some l := by
+                split at hl0
+                · exact hl0
+                · cases hl0
               intro env v hv
               have hb := shortcut_builtin hl
               simp only [den, denHead, denL, denLamL, callSem, List.tail_cons, fnCall, hb, if_true] at hv
